@@ -364,9 +364,14 @@ def run_e2e(acc, clastic, shard, nshards, maxel, maxsegs):
         ptext = R.pattern_text(elems, branch)
         relems = ref_elems(elems)
         names = [e[1] for e in elems if e[0] == 'bind']
-        for mode in (R.STRICT, R.REWRITE):
+        for mode, placement in ((R.STRICT, 'app'), (R.REWRITE, 'app'), (R.STRICT, 'route'), (R.REWRITE, 'route')):
             ep, seen = _mk_endpoint(names)
-            app = Application([Route(ptext, ep)], slash_mode=mode)
+            if placement == 'app':
+                app = Application([Route(ptext, ep)], slash_mode=mode)
+            else:
+                # the mode is the route's own: the application around it is in redirect mode
+                app = Application([], slash_mode=R.REDIRECT)
+                app.add(Route(ptext, ep, slash_mode=mode), inherit_slashes=False)
             for path in paths:
                 # werkzeug collapses leading slashes before clastic sees the path
                 eff = '/' + path.lstrip('/')
@@ -376,7 +381,7 @@ def run_e2e(acc, clastic, shard, nshards, maxel, maxsegs):
                 acc.evaluated += 1
                 acc.transitions += 1
                 acc.validated += 1
-                case = {'kind': 'e2e', 'pattern': ptext, 'mode': mode, 'path': path}
+                case = {'kind': 'e2e', 'pattern': ptext, 'mode': mode, 'path': path, 'placement': placement}
                 try:
                     body = app(_environ(path), lambda s, h, e=None: status.append(s))
                     try:
@@ -429,7 +434,7 @@ def space_size(tier):
     for name, kinds, lo, hi, mkpaths in layers(tier):
         total += len(layer_patterns(kinds, lo, hi)) * len(MODES) * len(mkpaths())
     total += len(invalid_patterns()) * len(MODES)
-    total += len(layer_patterns(P2_KINDS, 0, 2)) * 2 * len(seg_paths(2 if tier == 'quick' else 3))
+    total += len(layer_patterns(P2_KINDS, 0, 2)) * 4 * len(seg_paths(2 if tier == 'quick' else 3))
     return total
 
 
@@ -481,7 +486,11 @@ def replay(case):
         elems, branch = R.parse_pattern(case['pattern'])
         names = [e[1] for e in elems if e[0] == 'bind']
         ep, seen = _mk_endpoint(names)
-        app = Application([Route(case['pattern'], ep)], slash_mode=case['mode'])
+        if case.get('placement') == 'route':
+            app = Application([], slash_mode=R.REDIRECT)
+            app.add(Route(case['pattern'], ep, slash_mode=case['mode']), inherit_slashes=False)
+        else:
+            app = Application([Route(case['pattern'], ep)], slash_mode=case['mode'])
         st = []
         b''.join(app(_environ(case['path']), lambda s, h, e=None: st.append(s)))
         eff = '/' + case['path'].lstrip('/')
